@@ -27,7 +27,7 @@ from ..common import enc, ask, call
 
 LEVEL = "proof"
 TRUSTED = [py2lean.trusted_note("sliced")]
-PROP_FILES = ["PersimVerif/Props/C15.lean", py2lean.prop_file("sliced")]
+PROP_FILES = ["PersimVerif/Props/C15.lean", py2lean.prop_file("sliced"), "PersimVerif/Props/C15C14Model.lean"]
 RULE = ("pairs/triples of diagrams from one PRNG: sizes 0-8 (thorough 0-20), coordinates from lattice/half/dyadic/decimal/"
         "uniform modes (scales 2^-20..2^20), duplicates, diagonal points, then with prob 1/2 shifted along the diagonal or "
         "reflected so that coordinates of either sign occur; kinds random / reordered-equal / nearly-equal / one or both empty; "
@@ -56,7 +56,9 @@ RND = 1e-14           # [T] laws: float64 rounding of the coordinates involved (
 # slice_lengths, the generic swWith_* forms and sw_ok_iff are not in this list)
 CORE_THEOREMS = ["sw_eq_average", "sorted_l1_is_ot", "sw_symm", "sw_perm", "sw_self_perm", "sw_nonneg", "sw_triangle", "sw_scale",
                  "sw_translate_diag", "sw_ignores_diagonal", "sw_ignores_diagonal_right", "sw_ignores_diagonal_filter",
-                 "sw_le_two_w1", "sw_le_two_w1_min"]
+                 "sw_le_two_w1", "sw_le_two_w1_min",
+                 # composed with the C02 model (Props/C15C14Model.lean): what the two models return on the same pair
+                 "wsReturns_isW1", "model_sw_le_two_model_wasserstein", "model_sw_le_two_model_wasserstein_dirs", "guard_needed"]
 MS = [1, 2, 3, 10, 50]
 EXPECTED_DIGEST = None   # filled lazily into the evidence; a changed digest only raises the budget
 
@@ -680,7 +682,7 @@ def replay(ctx, rep):
 
 
 MANIFEST = {
-    "text": "Proof: 28 Lean theorems (14 of them core: each a clause of the statement about the value; the others are generic swWith_* "
+    "text": "Proof: 28 Lean theorems in Props/C15.lean plus Props/C15C14Model.lean (C15 composed with the C02 model: if the model of wasserstein(D1, D2) returns w then the model of sliced_wasserstein(D1, D2, M), with the code's own M directions, returns v <= 2w, under birth <= death, which is necessary - guard_needed) (18 of them core: each a clause of the statement about the value; the others are generic swWith_* "
             "steps, helpers, rfl restatements such as sliceCost_eq / slice_lengths and two counterexamples for the old projection) "
             "about the model of sliced_wasserstein over the reals, for diagrams of every size, coordinates of "
             "either sign and every list of M >= 1 directions: the value is the average over the directions of the sorted L1 cost of "
